@@ -404,12 +404,36 @@ _ORIG = {}
 # --------------------------------------------------------------------------
 # tagged hex:  int(binascii.b2a_hex(b), 16)  ==  int.from_bytes(b, 'big')
 # --------------------------------------------------------------------------
+def _hex_cp(bvar, hi):
+    d = (bvar / 16) if hi else (bvar % 16)
+    return z3.If(d < 10, d + 48, d + 87)
+
+
 class HexOfBytes(object):
     """What b2a_hex/hexlify returns for symbolic input; realises on any use
     other than int(..., 16) / .decode()."""
 
     def __init__(self, data):
         self._vf_data = data
+
+    def decode(self, *a, **kw):
+        # hex text of symbolic octets as a symbolic string (two code points per octet)
+        data = self._vf_data
+        n = len(data)
+        items = [data[i] for i in range(n)]
+        with NoTracing():
+            cps = []
+            for b in items:
+                if isinstance(b, SymbolicInt):
+                    cps.append(SymbolicInt(_hex_cp(b.var, True)))
+                    cps.append(SymbolicInt(_hex_cp(b.var, False)))
+                else:
+                    t = '%02x' % int(b)
+                    cps.extend([ord(t[0]), ord(t[1])])
+            STATS['hex_text'] = STATS.get('hex_text', 0) + 1
+            if not cps:
+                return ''
+            return bl.LazyIntSymbolicStr(cps)
 
     def _vf_real(self):
         return binascii.b2a_hex(bytes(deep_realize(self._vf_data)))
@@ -610,6 +634,17 @@ def _my_repr(obj):
     return repr(obj)
 
 
+def _my_str(*a, **kw):
+    # CUT: str(symbolic bytes) is the repr of the bytes - only ever used to decorate error reports
+    if len(a) == 1 and not kw:
+        with NoTracing():
+            cut = isinstance(a[0], (BytesLike, HexOfBytes))
+        if cut:
+            STATS['repr_cut'] += 1
+            return '<str of symbolic bytes>'
+    return str(*a, **kw)
+
+
 def _my_ord(c):
     # ord(b) of a length-1 symbolic bytes object: its only octet (CrossHair realises)
     with NoTracing():
@@ -675,6 +710,7 @@ _LAYER = {
     int.from_bytes: _my_from_bytes,
     bytes.decode: _my_bytes_decode,
     ord: _my_ord,
+    str: _my_str,
 }
 
 _installed = False
@@ -690,6 +726,28 @@ def install():
     setup_binop(_bit_int_sym, {ops.and_, ops.or_, ops.xor})
     setup_binop(_truediv_sym_int, {ops.truediv})
     bl._BIN_OPS.clear()
+
+    _bytes_getitem = bl.SymbolicBytes.__getitem__
+
+    def _clamped_getitem(self, i):
+        # b[lo:hi] with symbolic bounds: every bound >= len(b) behaves like len(b); decide that with one
+        # solver fork instead of letting the slice realise each of the (up to 65536) values
+        if isinstance(i, slice) and i.step is None:
+            with NoTracing():
+                sym = isinstance(i.start, SymbolicInt) or isinstance(i.stop, SymbolicInt)
+            if sym:
+                n = len(self)
+                lo, hi = i.start, i.stop
+                with NoTracing():
+                    lo_sym, hi_sym = isinstance(lo, SymbolicInt), isinstance(hi, SymbolicInt)
+                if lo_sym and lo >= n:
+                    lo = n
+                if hi_sym and hi >= n:
+                    hi = n
+                STATS['slice_clamp'] = STATS.get('slice_clamp', 0) + 1
+                i = slice(lo, hi)
+        return _bytes_getitem(self, i)
+    bl.SymbolicBytes.__getitem__ = _clamped_getitem
 
     SymbolicInt.__repr__ = _sym_int_repr
     _ORIG['str_eq'] = bl.LazyIntSymbolicStr.__eq__
